@@ -23,8 +23,11 @@ import (
 	"runtime/pprof"
 	"strings"
 	"sync"
+	"sync/atomic"
 	"syscall"
 	"time"
+
+	"verifharness/lib"
 )
 
 const cliDeadline = 20 * time.Second // hangs are declared after this long only (DESIGN 8a)
@@ -99,11 +102,12 @@ func (p *cliChildProc) kill() {
 
 // roundTrip sends one case and waits for its result line.
 // The third result reports that the child announced its own exit (its process state is no longer clean).
-func (p *cliChildProc) roundTrip(idx int, c json.RawMessage, timeout time.Duration) (json.RawMessage, *cliDeath, bool) {
+func (p *cliChildProc) roundTrip(idx int, c json.RawMessage, timeout time.Duration, class string) (json.RawMessage, *cliDeath, bool) {
 	line, _ := json.Marshal(struct {
 		I int             `json:"i"`
 		C json.RawMessage `json:"c"`
-	}{idx, c})
+		K string          `json:"k,omitempty"` // hang class of the case (lib/budget.go)
+	}{idx, c, class})
 	type rd struct {
 		b   []byte
 		err error
@@ -141,6 +145,7 @@ func (p *cliChildProc) roundTrip(idx int, c json.RawMessage, timeout time.Durati
 		return nil, d, true
 	case <-time.After(timeout):
 		p.kill()
+		lib.SpendHang(class, timeout)
 		return nil, &cliDeath{Idx: idx, Why: "timeout", Head: fmt.Sprintf("child did not answer within %v", timeout), Stack: cliTrim(p.stderr.String(), 3000)}, true
 	}
 }
@@ -227,7 +232,22 @@ func cliTrim(s string, n int) string {
 // cliRunPool runs every case in child processes (`vh child <name> args…`), `workers` at a time, one case
 // at a time per child. A case during which the child dies is re-run alone in a fresh child; the death is
 // reported with Confirmed set accordingly. results[i] is nil for a case that has no result.
+//
+// The pool obeys the run's budgets (lib/budget.go): a case whose hang class must not be scheduled any more (hang
+// budget exhausted and the class has hung, or the soft deadline passed) is not run; deaths[i] is then cliNotRun.
 func cliRunPool(name string, args []string, cases []json.RawMessage, workers int, caseTimeout time.Duration, progress func(done int)) ([]json.RawMessage, map[int]*cliDeath, error) {
+	return cliRunPoolC(name, args, cases, workers, caseTimeout, progress, nil)
+}
+
+// cliNotRun marks a case that the pool did not run because of the run's time budgets; callers skip it silently
+// (lib.BudgetReport says how many cases of which class were cut).
+var cliNotRun = &cliDeath{Why: "not-run"}
+
+// cliRunPoolC is cliRunPool with a hang class per case (nil: the child's name is the class of every case).
+func cliRunPoolC(name string, args []string, cases []json.RawMessage, workers int, caseTimeout time.Duration, progress func(done int), class func(i int) string) ([]json.RawMessage, map[int]*cliDeath, error) {
+	if class == nil {
+		class = func(int) string { return name }
+	}
 	results := make([]json.RawMessage, len(cases))
 	deaths := map[int]*cliDeath{}
 	var mu sync.Mutex
@@ -243,6 +263,48 @@ func cliRunPool(name string, args []string, cases []json.RawMessage, workers int
 	if workers > len(cases) {
 		workers = len(cases)
 	}
+	// The callers judge the results when the whole pool is done.  If the run is interrupted before that, what the
+	// cases' own processes reported is put into the result unprocessed (the deliberate self-test cases excepted).
+	defer lib.OnInterrupt(func() {
+		if vhResult == nil {
+			return
+		}
+		mu.Lock()
+		defer mu.Unlock()
+		n := 0
+		for i := range cases {
+			if bytes.Contains(cases[i], []byte("selftest")) {
+				continue
+			}
+			var in any
+			json.Unmarshal(cases[i], &in)
+			if d := deaths[i]; d != nil && d != cliNotRun {
+				n++
+				vhResult.Fail(lib.Failure{Kind: "oracle", Key: "unprocessed/" + d.Why + "/" + d.Site, What: "the process running this case died (" + d.Head + ") [run interrupted: reported as the pool saw it]", Input: in, Actual: d})
+			}
+			var res struct {
+				Fails []struct {
+					Key  string `json:"key"`
+					What string `json:"what"`
+					Act  any    `json:"actual"`
+				} `json:"fails"`
+			}
+			if results[i] == nil || json.Unmarshal(results[i], &res) != nil {
+				continue
+			}
+			for _, f := range res.Fails {
+				n++
+				kind := "oracle"
+				if strings.HasPrefix(f.Key, "tie/") {
+					kind = "tie"
+				}
+				vhResult.Fail(lib.Failure{Kind: kind, Key: "unprocessed/" + f.Key, What: f.What + " [run interrupted: reported as the case's own process recorded it, not judged by the check]", Input: in, Actual: f.Act})
+			}
+		}
+		if n > 0 {
+			vhResult.Note("interrupted while %d cases of child %q were running or waiting to be judged: %d reports of their processes are included under keys unprocessed/…", len(cases), name, n)
+		}
+	})()
 	var wg sync.WaitGroup
 	doneN := 0
 	for w := 0; w < workers; w++ {
@@ -264,6 +326,13 @@ func cliRunPool(name string, args []string, cases []json.RawMessage, workers int
 				}
 			}()
 			for i := range idxCh {
+				cl := class(i)
+				if lib.Stop(cl) {
+					mu.Lock()
+					deaths[i] = cliNotRun
+					mu.Unlock()
+					continue
+				}
 				if p == nil {
 					var err error
 					if p, err = cliStartChild(name, args); err != nil {
@@ -273,18 +342,29 @@ func cliRunPool(name string, args []string, cases []json.RawMessage, workers int
 						return
 					}
 				}
-				res, d, gone := p.roundTrip(i, cases[i], caseTimeout)
+				// the per-case timeout is the backstop behind the child's own deadlines (which are short once the hang
+				// budget is used up): it shrinks with them, and never reaches far beyond the soft deadline
+				tmo := min(caseTimeout, max(30*time.Second, lib.Remaining()+30*time.Second))
+				if lib.HangExhausted() {
+					tmo = min(tmo, 60*time.Second)
+				}
+				res, d, gone := p.roundTrip(i, cases[i], tmo, cl)
 				if gone {
 					p = nil
 				}
 				if d != nil {
-					// confirm alone (up to 3 times: some crashes depend on the schedule)
-					for try := 0; try < 3 && !d.Confirmed; try++ {
+					// confirm alone (up to 3 times: some crashes depend on the schedule; a child that did not answer at
+					// all is tried once more only, and nothing is confirmed once the class must not be scheduled any more)
+					tries := 3
+					if d.Why == "timeout" {
+						tries = 1
+					}
+					for try := 0; try < tries && !d.Confirmed && !lib.Stopped(cl); try++ {
 						q, err := cliStartChild(name, args)
 						if err != nil {
 							break
 						}
-						res2, d2, gone2 := q.roundTrip(i, cases[i], caseTimeout)
+						res2, d2, gone2 := q.roundTrip(i, cases[i], tmo, cl)
 						if d2 != nil {
 							d2.Confirmed = true
 							d = d2
@@ -338,12 +418,15 @@ func cliChildLoop(gcOff bool, run func(idx int, c json.RawMessage) (res any, exi
 			var env struct {
 				I int             `json:"i"`
 				C json.RawMessage `json:"c"`
+				K string          `json:"k"`
 			}
 			if e := json.Unmarshal(line, &env); e != nil {
 				fmt.Fprintln(os.Stderr, "vh child: bad case line:", e)
 				os.Exit(3)
 			}
+			cliCase.Store(lib.NewCase(env.K))
 			r, exit := run(env.I, env.C)
+			lib.FlushBudget()
 			b, _ := json.Marshal(struct {
 				I int  `json:"i"`
 				R any  `json:"r"`
@@ -362,8 +445,16 @@ func cliChildLoop(gcOff bool, run func(idx int, c json.RawMessage) (res any, exi
 	}
 }
 
-// cliWithin runs f in its own goroutine and reports whether it returned within d.
+// cliCase is the hang account of the case this child process is running (one at a time).
+var cliCase atomic.Pointer[lib.Case]
+
+// cliWithin runs f in its own goroutine and reports whether it returned within d.  Deadlines of a second and more come
+// from the run's hang budget and are charged to the current case when they pass; once the case has hung, its
+// remaining waits are short.
 func cliWithin(d time.Duration, f func()) bool {
+	if d >= time.Second {
+		return cliCase.Load().Within(d, f)
+	}
 	done := make(chan struct{})
 	go func() { defer close(done); f() }()
 	t := time.NewTimer(d)
@@ -455,6 +546,17 @@ func cliPkgGoroutines() (started, callers []cliGoroutine) {
 
 // cliWaitQuiet polls the goroutine table for up to `max` until no goroutine belongs to pkg/sftp.
 func cliWaitQuiet(max time.Duration) (started, callers []cliGoroutine) {
+	// a poll of a second and more is a liveness deadline like the others: out of the hang budget, charged when it passes
+	k := cliCase.Load()
+	charge := max >= time.Second
+	if charge {
+		max = k.Wait(max)
+		defer func() {
+			if len(started)+len(callers) > 0 {
+				k.Spend(max)
+			}
+		}()
+	}
 	deadline := time.Now().Add(max)
 	sleep := 100 * time.Microsecond
 	for i := 0; ; i++ {
